@@ -36,7 +36,7 @@ out.append('| seed | property | needs to manifest | outcome | note |')
 out.append('|---|---|---|---|---|')
 for mf in sorted(glob.glob(os.path.join(ROOT, 'seeded', '*', 'meta.json'))):
     m = json.load(open(mf))
-    out.append('| %s | %s | %s | %s | %s |' % (m['id'], m['property'], m.get('needs_to_manifest', '').replace('|', '/')[:300], ('caught by ' + ', '.join(m.get('caught_by', []))) if m.get('caught_by') else m.get('outcome', 'NOT caught'), m.get('note', '').replace('|', '/')[:400]))
+    out.append('| %s | %s | %s | %s | %s |' % (m['id'], m['property'], ' '.join(m.get('needs_to_manifest', '').split()).replace('|', '/')[:300], ('caught by ' + ', '.join(m.get('caught_by', []))) if m.get('caught_by') else m.get('outcome', 'NOT caught'), ' '.join(m.get('note', '').split()).replace('|', '/')[:600]))
 txt = '\n'.join(out) + '\n'
 p = os.path.join(ROOT, 'DESIGN.md'); s = open(p).read()
 B = '<!-- BEGIN GENERATED (tools/gen_design_tables.py) -->'; E = '<!-- END GENERATED -->'
